@@ -154,6 +154,25 @@ static bool edges_overlap(const Path64& a, const Path64& b) {
   }
   return false;
 }
+// A path that touches itself at a vertex decomposes into loops; true iff it has loops of both orientations (a
+// "figure eight" whose lobes are one outer and one hole), which no placement in the tree can nest correctly.
+static bool has_lobes_of_opposite_orientation(const Path64& p) {
+  std::vector<Point64> st; bool pos = false, neg = false;
+  auto close_loop = [&](size_t from) {
+    Path64 loop(st.begin() + (long)from, st.end());
+    i128 a = area2(loop);
+    if (a > 0) pos = true; else if (a < 0) neg = true;
+    st.resize(from + 1);
+  };
+  for (const Point64& v : p) {
+    size_t hit = st.size();
+    for (size_t i = 0; i < st.size(); ++i) if (st[i] == v) { hit = i; break; }
+    if (hit < st.size()) close_loop(hit); else st.push_back(v);
+  }
+  if (st.size() >= 3) close_loop(0);
+  return pos && neg;
+}
+
 static std::vector<std::string> classify_one(const Flat& t, int k, bool use_mid, const std::string& cls, int& T) {
   const Node& N = t.nodes[(size_t)k];
   T = -1;
@@ -205,6 +224,9 @@ static std::vector<std::string> classify_node(const Flat& t, int k, bool use_mid
   }
   if (moved) tags.push_back("via_misplaced_container");
   const Node& W = t.nodes[(size_t)who];
+  if (has_lobes_of_opposite_orientation(W.poly) || has_lobes_of_opposite_orientation(t.nodes[(size_t)k].poly)) {
+    tags.push_back("polygon_with_lobes_of_opposite_orientation"); tags.push_back("polygon_with_lobes_of_opposite_orientation@" + cls);
+  }
   std::string kind = W.a2 == 0 ? "flat" : ((W.a2 < 0) != rev ? "hole" : "outer");
   tags.push_back("misplaced_is_" + kind);
   bool ov = std::find(tags.begin(), tags.end(), "edge_overlap_true_container") != tags.end();
@@ -282,7 +304,7 @@ static bool check_nesting(Ctx& ctx, const Case& c, const Flat& t, bool rev, bool
   // (3) outside the siblings
   auto sib_class = [&](int a, int b) {     // classify the node that is inside; if it is where it belongs, the other one
     std::vector<std::string> ta = classify_node(t, a, use_mid, cls, rev);
-    if (ta[0] != "parent_is_true_container") return ta;
+    if (ta[0] != "parent_is_true_container" || has_lobes_of_opposite_orientation(t.nodes[(size_t)a].poly)) return ta;
     return classify_node(t, b, use_mid, cls, rev);
   };
   auto sib = [&](const std::vector<int>& group) -> bool {
@@ -907,6 +929,10 @@ void vf_case(Ctx& ctx, uint64_t i) {
 }
 
 void vf_replay(Ctx& ctx, const Case& c) { judge(ctx, c, true); }
+
+// every violation keeps its witness: the known classes are frequent at the thorough tier (hundreds per run), and a
+// rare new class must not lose its witness to the per-claim cap
+void vf_begin(Ctx& ctx) { ctx.max_witness_per_claim = 100000; }
 
 void vf_end(Ctx& ctx) {
   ctx.count("gp_candidates_tried", g_gc.tries);
